@@ -110,33 +110,47 @@ def main():
         return "int"
 
     bufs = {}
+    fb_fn = case.get("fb_fn") or list(range(len(case["fb_owners"])))     # global feedback id -> id of the getter function
+    gid_of = {(o, f): g for g, (o, f) in enumerate(zip(case["fb_owners"], fb_fn))}
+
+    def ix(self, dflt):
+        """index of this component instance (several components may share one class)"""
+        rob = robot_holder[0]
+        for jj in range(ncomp):
+            if getattr(rob, "c%02d" % jj, None) is self:
+                return jj
+        return dflt
 
     def make_fb(j):
         kind = fb_kind(j)
+        owner0 = case["fb_owners"][j]
+
+        def begin_fb(self):
+            o = owner0 if owner0 < 0 else ix(self, owner0)
+            return begin(["cb", "Feedback", gid_of.get((o, j), j)])
         if kind == "str":
             def getter(self):
-                k = begin(["cb", "Feedback", j])
+                k = begin_fb(self)
                 if k in raises:
                     raise fault(k)
                 return "s%d" % fbval.get(k, 0)
         elif kind == "list":
-            buf = bufs.setdefault(j, [0, 7])
-
             def getter(self) -> list[int]:
-                k = begin(["cb", "Feedback", j])
+                k = begin_fb(self)
                 if k in raises:
                     raise fault(k)
+                buf = bufs.setdefault((id(self), j), [0, 7])       # one list per instance, always the same object
                 buf[0] = fbval.get(k, 0)
                 return buf
         elif kind == "int_quoted":
             def getter(self) -> "int":
-                k = begin(["cb", "Feedback", j])
+                k = begin_fb(self)
                 if k in raises:
                     raise fault(k)
                 return fbval.get(k, 0)
         else:
             def getter(self) -> int:
-                k = begin(["cb", "Feedback", j])
+                k = begin_fb(self)
                 if k in raises:
                     raise fault(k)
                 return fbval.get(k, 0)
@@ -152,6 +166,9 @@ def main():
         ns = {}
         basens = {}
         spec = case["comps"][i]
+        if spec.get("same_as") is not None:
+            comp_classes.append(comp_classes[spec["same_as"]])     # a second component of the same class
+            continue
         for a in range(nattr):
             d = case["marked"].get("%d,%d" % (i, a))
             target = basens if (spec["inherit"] and a % 2 == 0) else ns
@@ -162,7 +179,7 @@ def main():
 
         def mk(i):
             def execute(self):
-                k = begin(["exec", i, snapshot()])
+                k = begin(["exec", ix(self, i), snapshot()])
                 if k in raises:
                     raise fault(k)
             return execute
@@ -203,16 +220,17 @@ def main():
                         for a in range(nattr):
                             if not isinstance(getattr(cj, an(a), None), int):
                                 ok = False
-                    cb(["Setup", i if ok else 1000 + i])
+                    cb(["Setup", ix(self, i) if ok else 1000 + ix(self, i)])
                 return setup
             ns["setup"] = mk_setup(i)
         if spec["has_enable"]:
-            (basens if spec["inherit"] else ns)["on_enable"] = (lambda i: lambda self: cb(["OnEnable", i]))(i)
+            (basens if spec["inherit"] else ns)["on_enable"] = (lambda i: lambda self: cb(["OnEnable", ix(self, i)]))(i)
         if spec["has_disable"]:
-            ns["on_disable"] = (lambda i: lambda self: cb(["OnDisable", i]))(i)
+            ns["on_disable"] = (lambda i: lambda self: cb(["OnDisable", ix(self, i)]))(i)
         for j, o in enumerate(owners):
-            if o == i:
-                ns["get_f%03d" % j] = make_fb(j)
+            if o == i and fb_fn[j] == j:
+                # every other getter of an inheriting component is defined in its base class
+                (basens if (spec["inherit"] and j % 2 == 0) else ns)["get_f%03d" % j] = make_fb(j)
         if spec.get("sm"):
             # a component that is a StateMachine (its own execute() is scripted like any other component's)
             from magicbot import StateMachine, state as sm_state
@@ -231,11 +249,11 @@ def main():
         vals = []
         for j, o in enumerate(owners):
             tbl = "/robot" if o < 0 else "/components/c%02d" % o
-            e = nt.getTable(tbl).getEntry("f%03d" % j)
+            e = nt.getTable(tbl).getEntry("f%03d" % fb_fn[j])
             val = e.getValue()
             if e.exists() and val.isValid():
                 x = val.value()
-                kind = fb_kind(j)
+                kind = fb_kind(fb_fn[j])
                 if kind == "str":
                     # an un-hinted string feedback must be published as a string
                     x = int(x[1:]) if (isinstance(x, str) and x[:1] == "s" and x[1:].lstrip("-").isdigit()) else -999998
@@ -269,16 +287,18 @@ def main():
         "teleopPeriodic": lambda self: cb(["Periodic", "Teleop"]),
         "testPeriodic": lambda self: cb(["Periodic", "Test"]),
     }
+    split = case["robot_split"]          # components declared on a base robot class come first
+    base_rns = {}
     for j, o in enumerate(owners):
         if o < 0:
-            rns["get_f%03d" % j] = make_fb(j)
+            # with an inherited robot class every other robot-level getter is defined on the base robot
+            (base_rns if (split > 0 and j % 2 == 0) else rns)["get_f%03d" % j] = make_fb(j)
     ann = {}
     base_ann = {}
-    split = case["robot_split"]          # components declared on a base robot class come first
     for i in range(ncomp):
         (base_ann if i < split else ann)["c%02d" % i] = comp_classes[i]
     if split > 0:
-        Base = type("BaseRobot", (magicbot.MagicRobot,), {"__annotations__": base_ann, "createObjects": lambda self: setattr(self, "peer", Shared())})
+        Base = type("BaseRobot", (magicbot.MagicRobot,), dict(base_rns, **{"__annotations__": base_ann, "createObjects": lambda self: setattr(self, "peer", Shared())}))
         rns["__annotations__"] = ann
         Robot = type("Robot", (Base,), rns)
     else:
